@@ -246,7 +246,13 @@ def run(repo, rep, tier):
                 for x in walk_no_nested(g.stmt):
                     if isinstance(x, ast.Call) and unparse(x.func) == '%s.settimeout' % var:
                         a = unparse(x.args[0])
-                        rep.check('timeouts', 'timeout value is the configured finite timeout', a in ('self.__timeout', 'self.connect_timeout', 'timeout') and a != 'None', x, 'settimeout(%s)' % a)
+                        # finite: not the literal None, and a local name is never bound to None in this function
+                        arg0 = x.args[0]
+                        finite = not (isinstance(arg0, ast.Constant) and arg0.value is None)
+                        if finite and isinstance(arg0, ast.Name):
+                            defs = [d for d in walk_no_nested(f) if isinstance(d, ast.Assign) and any(isinstance(t, ast.Name) and t.id == arg0.id for t in d.targets)]
+                            finite = not any(isinstance(d.value, ast.Constant) and d.value.value is None for d in defs)
+                        rep.check('timeouts', 'timeout value is finite (never None)', finite, x, 'settimeout(%s) can switch the socket to blocking-forever' % a)
         for n in walk_no_nested(f):
             if isinstance(n, ast.Call) and unparse(n.func) == 'select.select':
                 rep.check('timeouts', '%s: select() carries a timeout' % func_id(f), len(n.args) == 4 and not (isinstance(n.args[3], ast.Constant) and n.args[3].value is None), n, 'select() without timeout')
